@@ -168,12 +168,16 @@ func ckEntries(file string) (string, error) {
 }
 
 // original URIs of every file below <savepoint dir>/dkv (the artifact stores a file under its original absolute path)
-func artifactURIs(spDir string) []string {
+// Only files written since `since` count: a savepoint location that an earlier life of the job already used may hold
+// that life's files under the same names; they are not part of this savepoint.
+func artifactURIs(spDir string, since time.Time) []string {
 	root := filepath.Join(spDir, "dkv")
 	var out []string
 	filepath.WalkDir(root, func(p string, d os.DirEntry, err error) error {
 		if err == nil && !d.IsDir() {
-			out = append(out, strings.TrimPrefix(p, root))
+			if info, e := d.Info(); e == nil && !info.ModTime().Before(since) {
+				out = append(out, strings.TrimPrefix(p, root))
+			}
 		}
 		return nil
 	})
@@ -222,6 +226,7 @@ func (cl *cluster) savepointRestart(o op, tags map[string]bool, tableIDs map[str
 	// --- request the savepoint through the REAL Job.HandleCreateSavepoint, alone or while a periodic checkpoint is
 	// pending (the harness plays the ticker: Store.CreateCheckpoint + Assembly.StartCheckpoint, as jobs/job.go does)
 	ctx := context.Background()
+	requested := time.Now().Add(-2 * time.Millisecond)
 	job := jobs.VerifNewRunningJob(js.store, cl.asm, js.errs)
 	cl.sr.take()
 	counterAtStart := js.counter
@@ -360,7 +365,7 @@ func (cl *cluster) savepointRestart(o op, tags map[string]bool, tableIDs map[str
 		}
 		obsItems = append(obsItems, fmt.Sprintf("(%d, %s, %s)", id, hx.CoqBytes([]byte(a.DkvFileUri)), ents))
 	}
-	artifact := artifactURIs(spDir)
+	artifact := artifactURIs(spDir, requested)
 	withFiles := len(artifact) > len(acks)
 	// --- stop everything, wipe the working storage, start a new job from the savepoint URI
 	cl.stopAll()
